@@ -14,6 +14,8 @@ structure EFrame where
   id : Nat
   cA : AMode        -- apply mode its sub-rules are invoked with
   cfam : Nat        -- action family its sub-rules are invoked with
+  cctl : Nat        -- control family its sub-rules are invoked through
+  hctl : Nat        -- control family whose hooks (`start`, …) run for this invocation
   act : Bool        -- may the action of rule `id` be called in this invocation?
   deriving DecidableEq, Repr
 
@@ -22,25 +24,33 @@ structure EFrame where
     `enable_action` fix the mode for the rule's own action and its sub-tree; `at`, `not_at`, `disable`
     switch actions off and `enable` on for the sub-tree; `action< F, R >` switches the family for the
     sub-tree. -/
-def frameOf (cx : Ctx) (fam : Nat) (i : Nat) (a : AMode) : EFrame :=
+def frameOf (cx : Ctx) (fam ctl : Nat) (i : Nat) (a : AMode) : EFrame :=
   match cx.g[i]? with
-  | none => ⟨i, a, fam, false⟩
+  | none => ⟨i, a, fam, ctl, ctl, false⟩
   | some nd =>
     let spec := cx.actOf { fam := fam } i nd
     match spec.wrap with
-    | .changeAction f => ⟨i, a, f, false⟩
-    | .changeActionAndState f _ => ⟨i, a, f, false⟩
+    | .changeAction f => ⟨i, a, f, ctl, ctl, false⟩
+    | .changeActionAndState f _ => ⟨i, a, f, ctl, ctl, false⟩
     | w =>
       let bodyA := match w with
         | .disableAction => AMode.nothing
         | .enableAction => AMode.action
         | _ => a
-      ⟨i, nd.kind.childMode bodyA, (nd.kind.childEnv { fam := fam }).fam, nd.ctl && hasAction bodyA spec⟩
+      let h := match w with
+        | .changeControl k => k
+        | _ => ctl
+      ⟨i, nd.kind.childMode bodyA, (nd.kind.childEnv { fam := fam }).fam, (nd.kind.childEnv { ctl := h }).ctl, h,
+        nd.ctl && hasAction bodyA spec⟩
 
 def envStep (cx : Ctx) (s : List EFrame) : Ev → Option (List EFrame)
-  | .enter i a _ _ =>
+  | .enter i a _ _ k =>
     match s with
-    | top :: _ => if a = top.cA then some (frameOf cx top.cfam i a :: s) else none
+    | top :: _ => if a = top.cA ∧ k = top.cctl then some (frameOf cx top.cfam top.cctl i a :: s) else none
+    | [] => none
+  | .start i _ k =>
+    match s with
+    | f :: _ => if f.id = i ∧ f.hctl = k then some s else none
     | [] => none
   | .exit i _ _ =>
     match s with
@@ -77,11 +87,11 @@ def AccOn (cx : Ctx) (F : EFrame) (l : List Ev) : Prop := ∀ stk, runEnv cx (F 
 
 /-- A complete invocation entered with mode `a` under family `fam`: accepted below every frame that
     prescribes exactly that mode and family. -/
-def EL (cx : Ctx) (a : AMode) (fam : Nat) (l : List Ev) : Prop :=
-  ∀ top : EFrame, top.cA = a → top.cfam = fam → AccOn cx top l
+def EL (cx : Ctx) (a : AMode) (fam ctl : Nat) (l : List Ev) : Prop :=
+  ∀ top : EFrame, top.cA = a → top.cfam = fam → top.cctl = ctl → AccOn cx top l
 
 def Ev.switchNeutral : Ev → Bool
-  | .enter _ _ _ _ | .exit _ _ _ | .apply _ _ _ _ | .apply0 _ _ _ => false
+  | .enter _ _ _ _ _ | .exit _ _ _ | .apply _ _ _ _ | .apply0 _ _ _ | .start _ _ _ => false
   | _ => true
 
 theorem AccOn.nil (cx : Ctx) (F : EFrame) : AccOn cx F [] := fun _ => rfl
@@ -125,7 +135,10 @@ theorem actOf_fam (cx : Ctx) (env : Env) (i : Nat) (nd : Node) : cx.actOf env i 
 theorem childEnv_fam (k : Kind) (env : Env) : (k.childEnv env).fam = (k.childEnv { fam := env.fam }).fam := by
   cases k <;> rfl
 
-def ERec (cx : Ctx) (rec : Rec) : Prop := ∀ j a m env st r, rec j a m env st = some r → EL cx a env.fam r.raw
+theorem childEnv_ctl (k : Kind) (env : Env) : (k.childEnv env).ctl = (k.childEnv { ctl := env.ctl }).ctl := by
+  cases k <;> rfl
+
+def ERec (cx : Ctx) (rec : Rec) : Prop := ∀ j a m env st r, rec j a m env st = some r → EL cx a env.fam env.ctl r.raw
 
 theorem actionOutcome_has {cx : Ctx} {i : Nat} {a : AMode} {act : ActionSpec} {s e : Cursor}
     (h : actionOutcome cx i a act s e ≠ .noAction) : hasAction a act = true := by
@@ -137,14 +150,15 @@ theorem actionOutcome_has {cx : Ctx} {i : Nat} {a : AMode} {act : ActionSpec} {s
 /-- The rule body and the match.hpp protocol around it, on top of the rule's own frame. -/
 theorem nodeCore_switch {cx : Ctx} {rec : Rec} (hrec : ERec cx rec) (k i : Nat) (nd : Node) (a : AMode) (m : RMode)
     (env : Env) (st : St) (r : Ret) (F : EFrame) (hid : F.id = i) (hA : F.cA = nd.kind.childMode a)
-    (hF : F.cfam = (nd.kind.childEnv env).fam)
+    (hF : F.cfam = (nd.kind.childEnv env).fam) (hC : F.cctl = (nd.kind.childEnv env).ctl) (hH : F.hctl = env.ctl)
     (hact : nd.ctl = true → hasAction a (cx.actOf env i nd) = true → F.act = true)
     (h : nodeCore cx rec k i nd a m env st = some r) : AccOn cx F r.raw := by
   have hb : ∀ mm r1, body cx rec k nd.kind a mm env st = some r1 → AccOn cx F r1.raw := by
     intro mm r1 h1
-    refine body_rawX (AccOn_closed cx F) cx k nd.kind a mm env ?_ (fun _ _ _ => AccOn.neutral cx F rfl) st r1 h1
+    refine body_rawX (AccOn_closed cx F) cx k nd.kind a mm env ?_ (fun _ _ _ => AccOn.neutral cx F rfl)
+      (fun _ acts b e => runActs_raw (AccOn.nil cx F) AccOn.app cx env.sd b e (fun _ => AccOn.neutral cx F rfl) acts) st r1 h1
     intro j _ m' st' r' hr'
-    exact hrec j _ m' _ st' r' hr' F hA hF
+    exact hrec j _ m' _ st' r' hr' F hA hF hC
   unfold nodeCore at h
   split at h
   · exact hb _ _ h
@@ -154,14 +168,16 @@ theorem nodeCore_switch {cx : Ctx} {rec : Rec} (hrec : ERec cx rec) (k i : Nat) 
     obtain ⟨r0, h0, rfl⟩ := h
     have q0 := hb _ _ h0
     simp only [guardRestore_raw]
-    refine AccOn.cons (AccOn.neutral cx F rfl) ?_
+    have hst : AccOn cx F [Ev.start i (cx.rep st.cur) env.ctl] := by
+      intro stk; simp [runEnv, envStep, hid, hH]
+    refine AccOn.cons hst ?_
     unfold afterBody
     split
     · refine AccOn.app q0 ?_
       split
       · exact AccOn.neutral cx F rfl
       · exact AccOn.nil cx F
-    · exact AccOn.app q0 (AccOn.neutral cx F rfl)
+    · exact failureHook_raw_closed AccOn.app (AccOn.neutral cx F rfl) (fun _ => AccOn.neutral cx F rfl) q0
     · simp only
       split
       · exact AccOn.app q0 (AccOn.neutral cx F rfl)
@@ -173,7 +189,8 @@ theorem nodeCore_switch {cx : Ctx} {rec : Rec} (hrec : ERec cx rec) (k i : Nat) 
         · exact AccOn.nil cx F
       · rename_i ho
         have hh := hact hctl (actionOutcome_has (by rw [ho]; simp))
-        exact AccOn.app q0 (AccOn.cons (AccOn.act i _ _ _ _ hid hh) (AccOn.neutral cx F rfl))
+        exact failureHook_raw_closed AccOn.app (AccOn.neutral cx F rfl) (fun _ => AccOn.neutral cx F rfl)
+          (AccOn.app q0 (AccOn.act i _ _ _ _ hid hh))
       · rename_i ho
         have hh := hact hctl (actionOutcome_has (by rw [ho]; simp))
         exact AccOn.app q0 (AccOn.cons (AccOn.act i _ _ _ _ hid hh) (AccOn.neutral cx F rfl))
@@ -187,8 +204,8 @@ theorem stateScope_acc {cx : Ctx} {F : EFrame} {o : Nat} {b : Bool} {r : Ret} (h
   · exact (AccOn_closed cx F).scope _ _ (Or.inl rfl) h
 
 theorem nodeCall_switch {cx : Ctx} {rec : Rec} (hrec : ERec cx rec) (k i : Nat) (a : AMode) (m : RMode)
-    (env : Env) (st : St) (r : Ret) (h : nodeCall cx rec k i a m env st = some r) : EL cx a env.fam r.raw := by
-  intro top hta htf stk
+    (env : Env) (st : St) (r : Ret) (h : nodeCall cx rec k i a m env st = some r) : EL cx a env.fam env.ctl r.raw := by
+  intro top hta htf htc stk
   unfold nodeCall at h
   split at h
   · exact absurd h (by simp)
@@ -196,22 +213,25 @@ theorem nodeCall_switch {cx : Ctx} {rec : Rec} (hrec : ERec cx rec) (k i : Nat) 
     simp only [Option.map_eq_some_iff] at h
     obtain ⟨r0, h0, rfl⟩ := h
     -- the frame the automaton pushes at `enter`
-    let Fw : AMode → EFrame := fun bodyA =>
-      ⟨i, nd.kind.childMode bodyA, (nd.kind.childEnv { fam := env.fam }).fam, nd.ctl && hasAction bodyA (cx.actOf env i nd)⟩
+    let Fw : AMode → Nat → EFrame := fun bodyA h =>
+      ⟨i, nd.kind.childMode bodyA, (nd.kind.childEnv { fam := env.fam }).fam, (nd.kind.childEnv { ctl := h }).ctl, h,
+        nd.ctl && hasAction bodyA (cx.actOf env i nd)⟩
     have core : ∀ (aa : AMode) (env' : Env) (st' : St) (r1 : Ret), env'.fam = env.fam →
-        nodeCore cx rec k i nd aa m env' st' = some r1 → AccOn cx (Fw aa) r1.raw := by
+        nodeCore cx rec k i nd aa m env' st' = some r1 → AccOn cx (Fw aa env'.ctl) r1.raw := by
       intro aa env' st' r1 hfam h1
       have hspec' : cx.actOf env' i nd = cx.actOf env i nd := by
         rw [actOf_fam cx env', actOf_fam cx env, hfam]
-      refine nodeCore_switch hrec k i nd aa m env' st' r1 (Fw aa) rfl rfl ?_ ?_ h1
+      refine nodeCore_switch hrec k i nd aa m env' st' r1 (Fw aa env'.ctl) rfl rfl ?_ ?_ rfl ?_ h1
       · show (nd.kind.childEnv { fam := env.fam }).fam = (nd.kind.childEnv env').fam
         rw [childEnv_fam nd.kind env', hfam]
+      · show (nd.kind.childEnv { ctl := env'.ctl }).ctl = (nd.kind.childEnv env').ctl
+        rw [childEnv_ctl nd.kind env']
       · intro hc hh
         show (nd.ctl && hasAction aa (cx.actOf env i nd)) = true
         rw [hspec'] at hh
         simp [hc, hh]
-    have hframe : ∃ F, frameOf cx top.cfam i a = F ∧ AccOn cx F r0.raw ∧ F.id = i := by
-      rw [htf]
+    have hframe : ∃ F, frameOf cx top.cfam top.cctl i a = F ∧ AccOn cx F r0.raw ∧ F.id = i := by
+      rw [htf, htc]
       have hspec : cx.actOf env i nd = cx.actOf { fam := env.fam } i nd := rfl
       unfold frameOf
       simp only [hn]
@@ -222,7 +242,7 @@ theorem nodeCall_switch {cx : Ctx} {rec : Rec} (hrec : ERec cx rec) (k i : Nat) 
         exact ⟨_, rfl, core a env st r0 rfl h0, rfl⟩
       · rename_i f hw
         simp only [hw]
-        exact ⟨_, rfl, hrec _ _ _ _ _ _ h0 _ rfl rfl, rfl⟩
+        exact ⟨_, rfl, hrec _ _ _ _ _ _ h0 _ rfl rfl rfl, rfl⟩
       · rename_i hw
         simp only [hw]
         exact ⟨_, rfl, core .nothing env st r0 rfl h0, rfl⟩
@@ -259,9 +279,13 @@ theorem nodeCall_switch {cx : Ctx} {rec : Rec} (hrec : ERec cx rec) (k i : Nat) 
         simp only [hw]
         simp only [Option.map_eq_some_iff] at h0
         obtain ⟨r1, h1, rfl⟩ := h0
-        exact ⟨_, rfl, stateScope_acc (hrec _ _ _ _ _ _ h1 _ rfl rfl), rfl⟩
+        exact ⟨_, rfl, stateScope_acc (hrec _ _ _ _ _ _ h1 _ rfl rfl rfl), rfl⟩
+      · rename_i kc hw
+        simp only [hw]
+        exact ⟨_, rfl, core a { env with ctl := kc } st r0 rfl h0, rfl⟩
     obtain ⟨F, hF, hacc, hid⟩ := hframe
-    simp only [bracket, dropOnFail_raw, List.cons_append, runEnv, envStep, hta, if_true, hF]
+    rw [htc] at hF
+    simp only [bracket, dropOnFail_raw, List.cons_append, runEnv, envStep, hta, htc, and_self, if_true, hF]
     rw [runEnv_append, hacc (top :: stk)]
     simp [runEnv, envStep, hid]
 
